@@ -4,8 +4,10 @@
 
    A WORLD is a set of package records
        [id, key, ver, slot, repo, deps]
-     repo \in {"src","vdb"}  ("vdb" = installed),  ver \in Nat (version order is C01's
-     business, here it is just <), deps \in [Classes -> SUBSET Item].
+     repo = "vdb" for installed packages, any other name ("src", "ovl", ...) is a source
+     repository / overlay;  ver \in Seq(Nat): the dot-separated numeric components (9 < 10,
+     1.9 < 1.10, 1 < 1.0; suffixes, revisions and leading zeros are C01's business);
+     deps \in [Classes -> SUBSET Item].
    A dependency class is a conjunction of ITEMS; an item is an any-of group: a set of
    ALTERNATIVES; an alternative is a set of atoms that must all hold
        dev-a/x               {{x}}
@@ -23,13 +25,24 @@ EXTENDS Integers, Sequences, FiniteSets
 Classes      == {"depend", "bdepend", "rdepend", "idepend", "pdepend"}
 BuildClasses == {"depend", "bdepend"}
 
+\* PMS version order on plain numeric components: compare component-wise as numbers, a proper
+\* prefix is the smaller version
+RECURSIVE VLessFrom(_, _, _)
+VLessFrom(a, b, k) ==
+  IF k > Len(a) THEN k <= Len(b)
+  ELSE IF k > Len(b) THEN FALSE
+  ELSE IF a[k] # b[k] THEN a[k] < b[k]
+  ELSE VLessFrom(a, b, k + 1)
+VLess(a, b) == VLessFrom(a, b, 1)
+VLe(a, b)   == a = b \/ VLess(a, b)
+
 VerOk(op, pv, av) ==
   CASE op = "any" -> TRUE
     [] op = "="   -> pv = av
-    [] op = ">="  -> pv >= av
-    [] op = "<="  -> pv <= av
-    [] op = ">"   -> pv > av
-    [] op = "<"   -> pv < av
+    [] op = ">="  -> VLe(av, pv)
+    [] op = "<="  -> VLe(pv, av)
+    [] op = ">"   -> VLess(av, pv)
+    [] op = "<"   -> VLess(pv, av)
 
 \* blocker atoms "match" exactly the packages they block
 Matches(a, p) == /\ a.key = p.key
@@ -37,7 +50,7 @@ Matches(a, p) == /\ a.key = p.key
                  /\ (a.slot = "*" \/ a.slot = p.slot)
 IsBlocker(a)  == a.blk # "none"
 
-Src(w) == {p \in w : p.repo = "src"}
+Src(w) == {p \in w : p.repo # "vdb"}
 Vdb(w) == {p \in w : p.repo = "vdb"}
 Ids(S) == {p.id : p \in S}
 ById(w, id) == CHOOSE p \in w : p.id = id
@@ -55,7 +68,7 @@ WellFormed(w) == /\ \A p, q \in w : p.id = q.id => p = q
                  /\ \A p \in w : \A c \in Classes : \A item \in p.deps[c] : WellFormedItem(item)
                  \* an installed database holds one package per name and slot, a repo one per version
                  /\ \A p, q \in Vdb(w) : SameSlot(p, q) => p = q
-                 /\ \A p, q \in Src(w) : (p.key = q.key /\ p.ver = q.ver) => p = q
+                 /\ \A p, q \in Src(w) : (p.repo = q.repo /\ p.key = q.key /\ p.ver = q.ver) => p = q
 
 (* ------------------------------------------------------------------ *)
 (* The plan and what it leaves installed                               *)
@@ -71,7 +84,7 @@ FinalIdsFrom(S, ops, k) ==
                     ops, k + 1)
 FinalIds(w, ops) == FinalIdsFrom(Ids(Vdb(w)), ops, 1)
 Final(w, ops)    == {p \in w : p.id \in FinalIds(w, ops)}
-Merged(w, ops)   == {p \in Final(w, ops) : p.repo = "src"}
+Merged(w, ops)   == {p \in Final(w, ops) : p.repo # "vdb"}
 OpsKnown(w, ops) == \A k \in DOMAIN ops : ops[k].p \in Ids(w) /\ (ops[k].t = "replace" => ops[k].old \in Ids(w))
 
 SatAtom(a, F)    == \E q \in F : Matches(a, q)
@@ -110,15 +123,15 @@ ValidPlan(w, targets, ops) == PlanViolations(w, targets, ops) = {}
 (* Brute-force oracle: some final set (kept installed + merged) is valid *)
 ValidFinal(w, targets, F) ==
   /\ \A t \in targets : SatAtom(t, F)
-  /\ \A p \in F : p.repo = "src" => \A c \in Classes : \A item \in p.deps[c] : IsBlockItem(item) \/ SatItem(item, F)
+  /\ \A p \in F : p.repo # "vdb" => \A c \in Classes : \A item \in p.deps[c] : IsBlockItem(item) \/ SatItem(item, F)
   /\ \A p, q \in F : SameSlot(p, q) => p = q
-  /\ \A p \in F : p.repo = "src" => \A b \in BlockAtoms(p) : \A q \in F : q # p => ~Matches(b, q)
+  /\ \A p \in F : p.repo # "vdb" => \A b \in BlockAtoms(p) : \A q \in F : q # p => ~Matches(b, q)
 Resolvable(w, targets) == \E F \in SUBSET w : ValidFinal(w, targets, F)
 
 (* ------------------------------------------------------------------ *)
 (* C16: the choice policy                                              *)
 (* ------------------------------------------------------------------ *)
-MaxVer(S) == CHOOSE v \in {p.ver : p \in S} : \A q \in S : q.ver <= v
+MaxVer(S) == CHOOSE v \in {p.ver : p \in S} : \A q \in S : VLe(q.ver, v)
 Best(w, t) == LET C == Cands(w, t) IN {p \in C : p.ver = MaxVer(C)}
 
 RECURSIVE ReachFrom(_, _)
@@ -167,7 +180,7 @@ UpgradeOk(w, t, F) ==
 \* minimal install: a target an installed package satisfies keeps it and merges nothing else for it
 ReuseApplies(w, t) == \E p \in Vdb(w) : Matches(t, p)
 ReuseOk(w, t, F)   == /\ \E p \in F : p.repo = "vdb" /\ Matches(t, p)
-                      /\ \A p \in F : p.repo = "src" => ~Matches(t, p)
+                      /\ \A p \in F : p.repo # "vdb" => ~Matches(t, p)
 
 SeqSet(s) == {s[k] : k \in DOMAIN s}
 \* targets is a SEQUENCE here; ok = the resolver reported success.  Judged only inside Robust
